@@ -134,7 +134,7 @@ def load(contracts_dir):
         implies=implies, iff=iff, forall=forall, exists=exists, forall_int=forall_int, exists_int=exists_int, sum_=sum_, is_int=is_int,
         schema=noop, struct=struct, record=record, module_var=noop, const=noop, inline=noop, lock=noop, abstract_bool=noop, class_tag=noop,
         abstract_property=noop, dispatch=noop, clock=noop, contract=deco, virtual=deco, external=deco, lemma=deco,
-        grid=noop, ground_numbers=noop, ghost_list=noop, charset=noop,
+        grid=noop, ground_numbers=noop, ghost_list=noop, charset=noop, bands=noop,
         REAL=S, INT=S, BOOL=S, ATOM=S, MONEY=S, CHARS=S, NONE=S, Ref=S, Opt=S, Tup=S, ListOf=S, MapOf=S, MapOfDefault=S,
     )
     for k in ("requires", "ensures", "raises", "modifies", "modifies_all", "modifies_list", "modifies_map", "invariant", "decreases", "local", "trusted", "note", "cover"):
